@@ -107,6 +107,8 @@ type Plan struct {
 	Users  []UserPlan   `json:"users,omitempty"`
 	Faults []vsys.Fault `json:"faults,omitempty"`
 	Stop   StopPlan     `json:"stop"`
+	Enum   bool         `json:"enum,omitempty"`   // C18: enumerate single faults over this scenario
+	EnumK  int          `json:"enum_k,omitempty"` // per site, call indexes 1..EnumK
 }
 
 func clonePlan(p *Plan) *Plan {
